@@ -60,14 +60,17 @@ class SRPolicyTunnel(TunnelTypeTLV):
         return b''.join(tlv.pack() for tlv in self.subtlvs)
 
     def json(self) -> str:
-        parts: list[str] = []
+        # one entry per name: a sub-TLV sent twice would otherwise be a duplicate key
+        named: dict[str, str] = {}
         # Collect segment lists separately to emit as array
         segment_lists: list[str] = []
         for tlv in self.subtlvs:
             if isinstance(tlv, SegmentListSubTLV):
                 segment_lists.append(tlv.json())
             else:
-                parts.append(tlv.json())
+                rendered = tlv.json()
+                named.setdefault(rendered.split(':', 1)[0], rendered)
+        parts: list[str] = list(named.values())
         if segment_lists:
             parts.append('"segment-lists": [' + ', '.join(segment_lists) + ']')
         return '"sr-policy": {' + ', '.join(parts) + '}'
